@@ -48,7 +48,7 @@ fn c03_spec() -> CheckSpec {
     CheckSpec {
         property: "C03",
         level: "fault_enumeration",
-        rule: "files that were valid when written (generated from the frozen grammar, with A2ML and IF_DATA, whole file or fragment) and were then damaged by storage faults. Scenario 1 enumerates per document every truncation point (quick: every point for documents <= 700 bytes, else 160 biased points plus every point inside the A2ML text) and every single-token drop / duplication / swap, under configurations entry {load_from_string, load, load_fragment, load_fragment_file} x strict x built-in A2ML spec {none, valid, damaged} (thorough: all configurations for every point). Scenario 3: include trees (as in C16) with 1..2 files damaged or removed per load. Scenario 2: seeded 1..3 byte-granular faults (bit flip, zero fill, garbage, lost / duplicated / swapped region, misdirected write) on UTF-8/16/32 encoded files, with read chunking and I/O faults. Oracle: the call returns Ok or Err; no panic, no arithmetic overflow (overflow checks on), fuel (4096 ticks per byte) not exhausted. evaluations = loads. Non-trivial: the fault changed the bytes. Distinct: (fault operator, lexical region class of the fault position, configuration, outcome class).",
+        rule: "files that were valid when written (generated from the frozen grammar, with A2ML and IF_DATA, whole file or fragment) and were then damaged by storage faults. Scenario 1 enumerates per document every truncation point (quick: every point for documents <= 700 bytes, else 160 biased points plus every point inside the A2ML text) and every single-token drop / duplication / swap, under configurations entry {load_from_string, load, load_fragment, load_fragment_file} x strict x built-in A2ML spec {none, valid, damaged} (thorough: all configurations for every point). Scenario 4 (supplementary input sampling, not fault simulation): token soups over the lexical alphabet with a built-in specification that is valid or malformed. Scenario 3: include trees (as in C16) with 1..2 files damaged or removed per load. Scenario 2: seeded 1..3 byte-granular faults (bit flip, zero fill, garbage, lost / duplicated / swapped region, misdirected write) on UTF-8/16/32 encoded files, with read chunking and I/O faults. Oracle: the call returns Ok or Err; no panic, no arithmetic overflow (overflow checks on), fuel (4096 ticks per byte) not exhausted. evaluations = loads. Non-trivial: the fault changed the bytes. Distinct: (fault operator, lexical region class of the fault position, configuration, outcome class).",
         assumptions: vec![
             "damaged inputs are the closure of valid generated documents under the fault operators, not all byte strings: token soups and adversarial nesting depth are outside this fault model",
             "fuel covers loops that pass a tick site (tokenizer, A2ML tokenizer/parser loops, parser token cursor); tick-free loops are not covered",
@@ -60,6 +60,7 @@ fn c03_spec() -> CheckSpec {
             ScenarioPlan { scenario: Box::new(c03::C03Enumerate), quick_runs: 320, thorough_runs: 3_000 },
             ScenarioPlan { scenario: Box::new(c03::C03RandomFaults), quick_runs: 30_000, thorough_runs: 1_500_000 },
             ScenarioPlan { scenario: Box::new(c03::C03IncludeTrees), quick_runs: 5_000, thorough_runs: 250_000 },
+            ScenarioPlan { scenario: Box::new(c03::C03TokenSoups), quick_runs: 60_000, thorough_runs: 3_000_000 },
         ],
     }
 }
